@@ -126,19 +126,52 @@ def check_eventlist(ctx, cname):
                         idx = n_.args[0].id
                 if idx is not None:
                     exempt = {}             # cond node id -> label of the branch on which the deleted element was the last one
-                    lens = {f'len({unparse(x)})' for x in ast.walk(fn) if isF(x)}
+                    after_del = g.reachable_from(node)
+                    other_mut = [x for x in g.stmt_nodes() if x is not node and x.ast is not None and any(k_ == 'breaking' or k_ == 'heapq'
+                                                                                                          for (k_, _w) in classify_mutations(x.ast, isF, x))]
+
+                    def len_offset(e, depth=0):
+                        """k such that e == len(F) as it is AFTER the deletion, plus k; None when e is not such a length"""
+                        if isinstance(e, ast.Call) and unparse(e.func) == 'len' and len(e.args) == 1 and isF(e.args[0]):
+                            return 0                      # read where it stands: the caller corrects for reads in front of the deletion
+                        if isinstance(e, ast.BinOp) and isinstance(e.op, (ast.Add, ast.Sub)) and isinstance(e.right, ast.Constant) and isinstance(e.right.value, int) \
+                                and not isinstance(e.right.value, bool):
+                            k_ = len_offset(e.left, depth)
+                            return None if k_ is None else (k_ + e.right.value if isinstance(e.op, ast.Add) else k_ - e.right.value)
+                        if isinstance(e, ast.Name) and depth < 2:
+                            defs = [x for x in g.stmt_nodes() if isinstance(x.ast, (ast.Assign, ast.AnnAssign)) and getattr(x.ast, 'value', None) is not None
+                                    and any(isinstance(t, ast.Name) and t.id == e.id for t in (x.ast.targets if isinstance(x.ast, ast.Assign) else [x.ast.target]))]
+                            stores_ = sum(1 for y in walk_shallow(fn) if isinstance(y, ast.Name) and y.id == e.id and isinstance(y.ctx, ast.Store))
+                            if len(defs) != 1 or stores_ != 1:
+                                return None
+                            k_ = len_offset(defs[0].ast.value, depth + 1)
+                            if k_ is None:
+                                return None
+                            before = defs[0].id not in after_del and node.id in g.reachable_from(defs[0])
+                            after = defs[0].id in after_del and node.id not in g.reachable_from(defs[0])
+                            if before:
+                                return k_ + 1             # the list was one longer when this was read
+                            return k_ if after else None
+                        return None
                     for cn in g.nodes:
-                        if cn.kind != 'cond' or cn.ast is None or not isinstance(cn.ast, ast.Compare) or len(cn.ast.ops) != 1:
+                        if cn.kind != 'cond' or cn.ast is None or not isinstance(cn.ast, ast.Compare) or len(cn.ast.ops) != 1 or other_mut:
                             continue
-                        l_, r_, op_ = unparse(cn.ast.left), unparse(cn.ast.comparators[0]), cn.ast.ops[0]
-                        if l_ in lens and r_ == idx:
-                            l_, r_ = r_, l_
+                        if cn.id not in after_del:
+                            continue
+                        le_, re_, op_ = cn.ast.left, cn.ast.comparators[0], cn.ast.ops[0]
+                        if unparse(re_) == idx and unparse(le_) != idx:
+                            le_, re_ = re_, le_
                             op_ = {ast.Lt: ast.Gt, ast.Gt: ast.Lt, ast.LtE: ast.GtE, ast.GtE: ast.LtE}.get(type(op_), type(op_))()
-                        if l_ == idx and r_ in lens:
-                            if isinstance(op_, (ast.GtE, ast.Eq)):
-                                exempt[cn.id] = 'T'
-                            elif isinstance(op_, (ast.Lt, ast.NotEq)):
-                                exempt[cn.id] = 'F'
+                        if unparse(le_) != idx:
+                            continue
+                        k_ = len_offset(re_)
+                        if k_ is None:
+                            continue
+                        # the deleted position i satisfied i <= len(F) (after); "it was the last one" is i >= len(F) (after)
+                        if isinstance(op_, ast.GtE) and k_ >= 0 or isinstance(op_, ast.Gt) and k_ >= -1 or isinstance(op_, ast.Eq) and k_ >= 0:
+                            exempt[cn.id] = 'T'
+                        elif isinstance(op_, ast.Lt) and k_ >= 0 or isinstance(op_, ast.LtE) and k_ >= -1 or isinstance(op_, ast.NotEq) and k_ >= 0:
+                            exempt[cn.id] = 'F'
                     if exempt:
                         restoring = {x.id for x in restore_h} | ({x.id for x in restore_up} & {x.id for x in restore_down})
                         after_ = g.reachable_from(node)
@@ -522,10 +555,19 @@ def r15_observers(ctx, cname, ci, F, ev_index, isF, writer=None):
     ctx.ob('R1.5', f'{cname}.is_empty', ok, sample=f'{cname}.is_empty returns {[ctext(prog, cname, r.value) for r in rs if r.value is not None]}')
     if not ok:
         ctx.finding('R1.5', f'{cname}.is_empty', ci, fn, 'is_empty() is not an emptiness test of the backing list', where=f'{cname}.is_empty')
-    # peek_first / pop_first
+    # peek_first / pop_first: by cases (empty / non-empty) when loop-free, else the syntactic rule
+    from ..seqsearch import check_peek_pop
+    pp, pp_why = check_peek_pop(prog, cname, F, ev_index, need('peek_first'), need('pop_first'))
+    if pp is not None:
+        for m in ('peek_first', 'pop_first'):
+            ctx.examined()
+            ctx.ob('R1.5', f'{cname}.{m}', not pp[m], sample=f'{cname}.{m}: interpreted for an empty and a non-empty list: '
+                   + ('None / the event of the smallest entry' if not pp[m] else '; '.join(w for _c, _d, w in pp[m])))
+            for (cid, desc, what) in pp[m]:
+                ctx.finding('R1.5', f'{cname}.{m}:{"none-branch" if cid == "empty" else "value"}', ci, need(m), f'{m}() when {desc}: {what}', where=f'{cname}.{m}')
     sub = f'[{ev_index}]' if ev_index is not None else ''
     want = {'peek_first': {f'{f}[0]{sub}'}, 'pop_first': {f'heapq.heappop({f}){sub}'}}
-    for m in ('peek_first', 'pop_first'):
+    for m in (('peek_first', 'pop_first') if pp is None else ()):
         fn = need(m)
         g = CFG(fn)
         rs = returns(fn)
